@@ -443,7 +443,7 @@ static const struct fault_menu fault_menus[C_NCALLS] = {
   [C_WRITE] = { 1, { EINTR } },
   [C_POLL] = { 2, { EINTR, ENOMEM } },
   [C_FORK] = { 2, { EAGAIN, ENOMEM } },
-  [C_WAITPID] = { 2, { EINTR, ECHILD } },
+  [C_WAITPID] = { 1, { EINTR } }, /* ECHILD for an own, unreaped child needs SIGCHLD ignored: outside every property here */
   [C_KILL] = { 2, { ESRCH, EPERM } },
   [C_OPEN] = { 3, { ENOENT, EACCES, EMFILE } },
   [C_DUP2] = { 3, { EBADF, EMFILE, EINTR } },
